@@ -290,7 +290,8 @@ def eval_case(case):
             for tag in region:
                 # inside the known region invariance under pure z-rotations is still
                 # enforced for the angle-convention finding (it holds there)
-                if tag == "dpd-alignment-with-several-topologies" or not pure_z:
+                if tag in {"dpd-alignment-with-several-topologies",
+                           "axis-angle-alignment-with-several-topologies"} or not pure_z:
                     tags.append(tag)
             viol.append({
                 "msg": f"rotation {label}: I = {got[k, e]:.8g} vs {base[k, e]:.8g} unrotated (rel. dev {d:.3g},"
